@@ -606,7 +606,8 @@ package vegeta
 //@ func (*peekingScanner).Text
 //@   inline
 //@ func startsWithHTTPMethod
-//@   trusted
+//@   property C14 C16
+//@   requires [package-initialised] httpMethodChecker != nil
 //@   modifies nothing
 
 // HTTP targeter: the whole decode is one critical section under mu; it writes only *tgt, the
@@ -617,7 +618,7 @@ package vegeta
 //@   guarded peekingScanner by &mu
 //@   guarded bufio.Scanner by &mu
 //@   requires [scanner-ready] sc.src != nil && !held(&mu) && scanleft(sc.src) >= 0
-//@   requires [package-initialised] ErrNilTarget != nil && ErrNoTargets != nil
+//@   requires [package-initialised] ErrNilTarget != nil && ErrNoTargets != nil && httpMethodChecker != nil
 //@   modifies *tgt, sc.peeked, *sc.src
 //@   ensures [nil-target-rejected] tgt == nil ==> err == ErrNilTarget
 //@   ensures [own-header-map] err == nil ==> tgt.Header != nil && fresh(tgt.Header)
@@ -711,6 +712,7 @@ package vegeta
 //@   property C07
 //@   modifies nothing
 //@   ensures [nil-header-is-empty-column] h == nil ==> result == nil
+//@   ensures [non-nil-header-is-never-an-empty-column] h != nil ==> len(result) >= 2
 
 //@ func NewCSVEncoder$1
 //@   property C07 C09
@@ -736,11 +738,15 @@ package vegeta
 //@   before call Flush: assert [flush-after-the-whole-record] writes == 1 && flushes == 0 ; ghost flushes = flushes + 1
 //@   ensures [one-whole-record-per-call] writes == 1 && (err == nil ==> flushes == 1)
 
+//@ func NewCSVDecoder
+//@   property C07 C09 C16
+//@   at store dec.FieldsPerRecord: assert [twelve-documented-columns] arg0 == 12 ; ghost csvFields(dec) = arg0
+
 //@ func NewCSVDecoder$1
 //@   property C07 C09 C16
 //@   returns (err)
 //@   requires [non-nil] r != nil && dec != nil
-//@   requires [twelve-fields-per-record] csvFields(dec) == 12
+//@   requires [obj-twelve-fields-per-record] csvFields(dec) == 12
 //@   modifies *r, *dec
 //@   ensures [timestamp] err == nil ==> parseint_ok(rec[0], 10, 64) && r.Timestamp == parseint(rec[0], 10)
 //@   ensures [code] err == nil ==> parseuint_ok(rec[1], 10, 16) && r.Code == parseuint(rec[1], 10)
@@ -763,9 +769,36 @@ package vegeta
 //@         && parseuint(fmtint(bout, 10), 10) == bout && parseuint(fmtint(bin, 10), 10) == bin && parseuint(fmtint(seq, 10), 10) == seq && b64dec(b64(body)) == body
 
 //@ func (jsonResult).MarshalEasyJSON
-//@   trusted
-//@   requires w != nil
-//@   modifies *w
+//@   inline
+
+// Generated JSON encoder for results: exactly the twelve documented keys, in order, each followed by
+// the field of the same name (latency as integer nanoseconds, timestamp via Time.MarshalJSON = RFC 3339,
+// body via Base64Bytes).
+//@ func easyjsonBd1621b8EncodeGithubComTsenartVegetaV12Lib
+//@   property C07
+//@   requires [non-nil] out != nil
+//@   modifies *out
+//@   ghost nkeys int
+//@   ghost lastKey string
+//@   before call RawString: assert [documented-keys-in-order]
+//@          (nkeys == 0 ==> arg1 == "\"attack\":") && (nkeys == 1 ==> arg1 == ",\"seq\":") && (nkeys == 2 ==> arg1 == ",\"code\":") && (nkeys == 3 ==> arg1 == ",\"timestamp\":")
+//@          && (nkeys == 4 ==> arg1 == ",\"latency\":") && (nkeys == 5 ==> arg1 == ",\"bytes_out\":") && (nkeys == 6 ==> arg1 == ",\"bytes_in\":") && (nkeys == 7 ==> arg1 == ",\"error\":")
+//@          && (nkeys == 8 ==> arg1 == ",\"body\":") && (nkeys == 9 ==> arg1 == ",\"method\":") && (nkeys == 10 ==> arg1 == ",\"url\":") && (nkeys == 11 ==> arg1 == ",\"headers\":") ;
+//@        ghost lastKey = arg1 ; ghost nkeys = nkeys + 1
+//@   before call String: assert [string-fields] (nkeys == 1 ==> arg1 == in.Attack) && (nkeys == 8 ==> arg1 == in.Error) && (nkeys == 10 ==> arg1 == in.Method) && (nkeys == 11 ==> arg1 == in.URL)
+//@          && nkeys != 2 && nkeys != 3 && nkeys != 4 && nkeys != 5 && nkeys != 6 && nkeys != 7 && nkeys != 9
+//@   before call Uint64: assert [uint64-fields] (nkeys == 2 ==> arg1 == in.Seq) && (nkeys == 6 ==> arg1 == in.BytesOut) && (nkeys == 7 ==> arg1 == in.BytesIn) && (nkeys == 2 || nkeys == 6 || nkeys == 7)
+//@   before call Uint16: assert [code] nkeys == 3 && arg1 == in.Code
+//@   before call MarshalJSON: assert [timestamp-rfc3339] nkeys == 4 && arg0 == in.Timestamp
+//@   before call Raw: assert [timestamp-raw-json] nkeys == 4 && (arg2 == nil ==> string(arg1) == rfc3339json(in.Timestamp))
+//@   before call Int64: assert [latency-integer-nanoseconds] nkeys == 5 && arg1 == in.Latency
+//@   before call Base64Bytes: assert [body-base64] nkeys == 9 && arg1 == in.Body
+//@   ensures [all-twelve-keys] nkeys >= 12
+//@   loop 1
+//@     invariant nkeys >= 12 && out == old(out)
+//@   loop 2
+//@     invariant nkeys >= 12 && out == old(out) && -1 <= rangeindex && rangeindex < len(v6Value)
+//@     decreases len(v6Value) - rangeindex
 //@ func (*jsonResult).UnmarshalEasyJSON
 //@   inline
 
@@ -845,3 +878,20 @@ package vegeta
 //@   property C09
 //@   pragma mode safety
 //@   requires enc != nil
+
+// ---------------------------------------------------------------------------------- C08
+// DecoderFor: sniffing neither loses nor replays bytes. Stream-position model (stubs/io.spec): the
+// buffer always holds exactly the bytes consumed from r since entry, every trial decoder and the
+// returned decoder read the stream from the position r had at entry (contiguity is the precondition
+// of io.MultiReader, the tee precondition says the buffer is in step with the source).
+//@ func DecoderFor
+//@   property C08 C16
+//@   requires [live-source] r != nil && live(r) && rsrc(r) == ref(r) && consumed(r) >= 0
+//@   ghost start int = consumed(r)
+//@   at alloc buf: ghost rsrc(&buf) = ref(r) ; ghost rfrom(&buf) = consumed(r) ; ghost rto(&buf) = consumed(r) ; ghost teeof(&buf) = 0 ; ghost live(&buf) = false ; ghost rempty(&buf) = false
+//@   before call dec x2: assert [every-decoder-reads-from-the-first-record] rsrc(arg0) == ref(r) && rfrom(arg0) == start
+//@   ensures [nothing-lost-nothing-replayed] result != nil ==> rsrc(dreader(result)) == ref(r) && rfrom(dreader(result)) == start && rto(dreader(result)) == -1
+//@   loop 1
+//@     invariant -1 <= rangeindex && rangeindex < 3 && r == old(r) && live(r) && rsrc(r) == ref(r)
+//@     invariant rsrc(&buf) == ref(r) && rfrom(&buf) == start && rto(&buf) == consumed(r) && !live(&buf) && !rempty(&buf) && (teeof(&buf) == 0 || teeof(&buf) == ref(r)) && consumed(r) >= start
+//@     decreases 3 - rangeindex
